@@ -2560,3 +2560,13 @@ variant('b-feeder-queues-the-last-parsed-frame-after-the-loop', ['C04'], 'rsocke
         "                async for frame in self._frame_parser.receive_data(data, 0):\n                    self._incoming_frame_queue.put_nowait(frame)\n",
         "                frame = None\n                async for frame in self._frame_parser.receive_data(data, 0):\n                    pass\n                self._incoming_frame_queue.put_nowait(frame)\n",
         ('C04.m', 'queues frame'))
+
+# C05.i every hand-out of the send queue is written
+variant('b-sender-skips-frames-whose-awaitable-was-cancelled', ['C05', 'C01'], RB,
+        "                    async with self._get_next_frame_to_send(transport) as frame:\n                        try:\n",
+        "                    async with self._get_next_frame_to_send(transport) as frame:\n                        if frame.sent_future is not None and frame.sent_future.cancelled():\n                            continue\n\n                        try:\n",
+        ('C05.i', '_sender'))
+variant('t-sender-logs-before-the-write', ['C05', 'C01', 'C11'], RB,
+        "                    async with self._get_next_frame_to_send(transport) as frame:\n                        try:\n",
+        "                    async with self._get_next_frame_to_send(transport) as frame:\n                        logger().debug('%s: writing a frame', self._log_identifier())\n                        try:\n",
+        kind='twin')
